@@ -2,6 +2,7 @@ package c08
 
 import (
 	"fmt"
+	"math"
 	"sort"
 	"testing"
 
@@ -145,7 +146,16 @@ func TestC08WalletLevel(t *testing.T) {
 				at := waddrmgr.WitnessPubKey
 				name := fmt.Sprintf("imp%d", imported)
 				if isDry {
-					_, _, _, err = s.F.W.ImportAccountDryRun(name, pub, 0x01020304, &at, uint32(rapid.IntRange(1, 3).Draw(t, "numAddrs")))
+					// a dry run can also fail after the account was created in its
+					// transaction (more addresses requested than an account can hold)
+					numAddrs := rapid.SampledFrom([]uint32{1, 2, 3, math.MaxUint32}).Draw(t, "numAddrs")
+					_, _, _, err = s.F.W.ImportAccountDryRun(name, pub, 0x01020304, &at, numAddrs)
+					if numAddrs == math.MaxUint32 {
+						if err == nil {
+							s.F.Violation("ImportAccountDryRun with %d addresses succeeded", numAddrs)
+						}
+						c.Class("import-dry-run-failing-after-account-creation")
+					}
 				} else {
 					_, err = s.F.W.ImportAccount(name, pub, 0x01020304, &at)
 				}
